@@ -81,7 +81,7 @@ def run_threads(spec, rec, lib):
     while len(cases) < spec["count"]:
         case = rootchain.gen_pair(rng)
         trusted, new = copy.deepcopy(case["trusted"]), copy.deepcopy(case["new"])
-        model, failed = models.root_verdict(trusted, new)
+        model, failed = rootchain.model_of(case, trusted, new)
         if model.v == models.GREY:
             continue
         cases.append((case, model, failed))
@@ -118,7 +118,7 @@ def run_cli(spec, rec, lib):
             continue
         if not (isinstance(new, dict) and isinstance(new.get("signed"), dict) and new["signed"].get("type") == "root"):
             continue  # the command line dispatches on the offered file's declared type
-        model, failed = models.root_verdict(trusted, new)
+        model, failed = rootchain.model_of(case, trusted, new)
         if model.v == models.GREY:
             continue
         with open(tp, "w") as f:
